@@ -11,8 +11,10 @@
  *          the implementation chain                                    reply: ret n {info}
  * In gen mode every scenario is serialised first and then rebuilt from its text, so that exec
  * replays exactly the same objects.
- * Oracle (gen mode): membership computed from first principles on the grid of all edge
- * coordinates +-1, in 64-bit arithmetic. */
+ * Oracle: membership computed from first principles on the grid of all edge coordinates +-1,
+ * in 64-bit arithmetic; evaluated (gen and exec alike) on the requests that satisfy the
+ * hypotheses RangeOK of the theorems = in_range(): no int overflow AND every consulted clip
+ * canonical.  Other requests get a RANGE / NONCANON line and are compared with the model only. */
 #ifdef HAVE_CONFIG_H
 #include <config.h>
 #endif
@@ -213,6 +215,11 @@ static const char *canon32(R32*r)
                else if(!(b[i-1].y2<=b[i].y1)) return "bands overlap or out of order"; }
     }
     if(r->extents.x1!=ex1||r->extents.x2!=ex2||r->extents.y1!=b[0].y1||r->extents.y2!=b[n-1].y2) return "extents not the bounding box";
+    /* bands that touch vertically have different spans (BandsOK of Spec/Canon.lean) */
+    for(int s0=0,ps=-1,pe=-1;s0<n;){ int e=s0; while(e<n&&b[e].y1==b[s0].y1) e++;
+        if(ps>=0&&b[ps].y2==b[s0].y1&&pe-ps==e-s0){ int same=1; for(int k=0;k<e-s0;k++) if(b[ps+k].x1!=b[s0+k].x1||b[ps+k].x2!=b[s0+k].x2) same=0;
+            if(same) return "vertically adjacent bands with equal spans not merged"; }
+        ps=s0;pe=e;s0=e; }
     return NULL;
 }
 
@@ -347,7 +354,7 @@ static int region_shift_ok(R32*r,long tx,long ty)
     for(int i=0;i<n;i++) if(!fits(b[i].x1+tx)||!fits(b[i].x2+tx)||!fits(b[i].y1+ty)||!fits(b[i].y2+ty)) return 0;
     return 1;
 }
-static int in_range(scen_t*s)
+static int no_overflow(scen_t*s)
 {
     if(!fits((long)s->dx+s->w)||!fits((long)s->dy+s->h)) return 0;
     long tx=(long)s->dx-s->sx,ty=(long)s->dy-s->sy;
@@ -361,8 +368,34 @@ static int in_range(scen_t*s)
     if(s->dest.has_alpha){ if(!fits((long)s->dest.ox+s->dest.a.w)||!fits((long)s->dest.oy+s->dest.a.h)) return 0; if(!region_shift_ok(&s->dest.a.clip,-(long)s->dest.ox,-(long)s->dest.oy)) return 0; }
     return 1;
 }
+/* the other half of RangeOK (Lemmas/CompositeRegion.lean): every clip region the code consults
+ * is a region, i.e. canonical (`Canon clip` in dest_clip, DestAlphaOK, ClipOK, AlphaOK).  A
+ * pixman_region32_t written field by field (data == NULL with x1 >= x2: "one rectangle" holding
+ * no point; unordered or overlapping lists) cannot be built with the region API and is not a
+ * clip region in the sense of the property; such requests are still compared with the model. */
+static int clips_canonical(scen_t*s)
+{
+    if(s->dest.c.have && canon32(&s->dest.c.clip)) return 0;
+    if(s->dest.has_alpha && s->dest.a.have && canon32(&s->dest.a.clip)) return 0;
+    if(applies(&s->src.c) && canon32(&s->src.c.clip)) return 0;
+    if(aclip_applies(&s->src) && canon32(&s->src.a.clip)) return 0;
+    if(s->has_mask){
+        if(applies(&s->mask.c) && canon32(&s->mask.c.clip)) return 0;
+        if(s->mask.c.have && aclip_applies(&s->mask) && canon32(&s->mask.a.clip)) return 0; }
+    return 1;
+}
+static int in_range(scen_t*s){ return no_overflow(s) && clips_canonical(s); }
+/* oracle lines only for requests inside the hypotheses of the theorems; otherwise a marker:
+ * RANGE (int overflow: C behaviour undefined, model comparison informational) or NONCANON (clip
+ * that is not a region: model comparison still binding) */
+static void judge(FILE*fo,long line,scen_t*s,result_t*res)
+{
+    if(!no_overflow(s)) fprintf(fo,"RANGE %ld\n",line);
+    else if(!clips_canonical(s)) fprintf(fo,"NONCANON %ld\n",line);
+    else oracle(fo,line,s,res);
+}
 static int off_big(void){ static const int o[]={-IMAX/2,-65536,-32769,-32768,-100,0,1,100,32767,32768,65536,IMAX/2,1<<30,-(1<<30)}; return o[rng_n(14)]+rng_range(-2,2); }
-static int wild_scen;   /* set when the scenario lies outside the no-overflow range of the theorem */
+static int wild_scen;   /* set when the scenario lies outside the hypotheses of the theorem (see judge()) */
 static void gen_scen(scen_t*s)
 {
     wild_scen=0;
@@ -397,6 +430,7 @@ static void gen_scen(scen_t*s)
         if(s->op==2){ /* stay inside what analyze_extent accepts */
             if(s->dest.c.w>30000||s->dest.c.h>30000||abs(s->dx)>10000||abs(s->dy)>10000||s->w>10000||s->h>10000){ free_scen(s); continue; } }
         if(in_range(s)) return;
+        if(no_overflow(s)){ wild_scen=1; return; }              /* a consulted clip is not a region: compared with the model only */
         if(s->op==0&&rng_chance(25)){ wild_scen=1; return; }   /* probe of excluded points: compared with the model only */
         free_scen(s);
     }
@@ -418,7 +452,7 @@ int main(int argc,char**argv)
             strcpy(linecopy,linebuf); int nt=split(linecopy,toks,1<<17);
             if(!de_scen(toks,nt,&s)){ fprintf(stderr,"generator wrote an unparsable line\n"); return 3; }
             result_t res; run_scen(&s,&res,outbuf); fprintf(fr,"%s\n",outbuf);
-            if(wild_scen) fprintf(fo,"RANGE %ld\n",i); else oracle(fo,i,&s,&res);
+            judge(fo,i,&s,&res);
             free_result(&res); free_scen(&s);
         }
         fclose(fi);fclose(fr);fclose(fo); return 0;
@@ -429,7 +463,7 @@ int main(int argc,char**argv)
         while(fgets(linebuf,sizeof linebuf,fi)){
             line++; int nt=split(linebuf,toks,1<<17); scen_t s;
             if(!de_scen(toks,nt,&s)){ fprintf(fr,"bad-op\n"); continue; }
-            result_t res; run_scen(&s,&res,outbuf); fprintf(fr,"%s\n",outbuf); if(fo) oracle(fo,line,&s,&res);
+            result_t res; run_scen(&s,&res,outbuf); fprintf(fr,"%s\n",outbuf); if(fo) judge(fo,line,&s,&res);
             free_result(&res); free_scen(&s); fflush(fr);
         }
         return 0;
